@@ -30,6 +30,10 @@ structure Var where
       (`v.f = …`, `v["k"] = …`, `v.f.g = …`); such a variable is no longer re-pointed -/
   hasSubs : Bool := false
   isParam : Bool := false
+  /-- `DeclRegion`: the part of the declaring statement in which the variable is not yet in scope — the
+      whole `local` statement; for a loop variable from its name to the end of the last header
+      expression; none for parameters and `local function` names -/
+  region : Option Loc := none
 deriving Repr, DecidableEq, Inhabited
 
 inductive Tree where
@@ -76,14 +80,26 @@ structure Acc where
   subs : List Tree := []
 deriving Inhabited
 
-/-- `IsCorrectPosition` -/
+/-- `IsCorrectPosition`: declared before the position, and — for a variable with a declaration region — the
+    position not inside that region unless it is on the declared name itself; variables without a region
+    (parameters, `local function`) keep the test on `ReferExp` -/
 def isCorrectPosition (v : Var) (loc : Loc) : Bool :=
   if !isBeforeLoc v.loc loc then false
-  else match v.ref with
-    | .func fl => if isContainLoc fl v.loc then true else !isContainLoc fl loc
-    | .name el => !isContainLoc el loc
-    | .call el => !isContainLoc el loc
-    | _ => true
+  else match v.region with
+    | some r => !(isContainLoc r loc && !isContainLoc v.loc loc)
+    | none =>
+      match v.ref with
+      | .func fl => if isContainLoc fl v.loc then true else !isContainLoc fl loc
+      | .name el => !isContainLoc el loc
+      | .call el => !isContainLoc el loc
+      | _ => true
+
+/-- `forDeclRegion`: from the loop variable to the end of the last header expression that has a location -/
+def forRegion (vl : Loc) (heads : List Exp) : Loc :=
+  heads.foldl (fun r e =>
+    let l := expLoc e
+    if isInitialLoc l then r
+    else if l.el > r.el || (l.el == r.el && l.ec > r.ec) then { r with el := l.el, ec := l.ec } else r) vl
 
 /-- the scopes under construction, innermost first -/
 abbrev St := List Acc
@@ -166,15 +182,15 @@ def St.open (s : St) (init : List Var) : St := { vars := init } :: s
 
 /-- the names of a local declaration, inserted after all initialisers were analysed: name i gets
     expression i; surplus names refer to a trailing call or are empty -/
-def declLocals (s : St) (lastCall : Option Loc) : List (Bytes × Loc × Nat) → List Exp → St
+def declLocals (s : St) (lastCall : Option Loc) (sl : Loc) : List (Bytes × Loc × Nat) → List Exp → St
   | ns, [] =>
     ns.foldl (fun s (n, nl, _) =>
       match lastCall with
-      | some cl => s.addVar { name := n, loc := nl, ref := .call cl }
-      | none => s.addVar { name := n, loc := nl, ref := .none, expEmpty := true }) s
+      | some cl => s.addVar { name := n, loc := nl, ref := .call cl, region := some sl }
+      | none => s.addVar { name := n, loc := nl, ref := .none, expEmpty := true, region := some sl }) s
   | [], _ :: _ => s
   | (n, nl, _) :: ns, e :: es =>
-    declLocals (s.addVar { name := n, loc := nl, ref := refKindOf e, expEmpty := isNilExp e }) lastCall ns es
+    declLocals (s.addVar { name := n, loc := nl, ref := refKindOf e, expEmpty := isNilExp e, region := some sl }) lastCall sl ns es
 
 mutual
 /-- traverse an expression: only function bodies create scopes -/
@@ -241,20 +257,20 @@ def cgStat (s : St) : Stat → St
   | .fornum v vl i lim st b l =>
     -- the step is visited before the limit
     let x := cgExp (cgExp (cgExp (s.open []) i) st) lim
-    St.close (cgBlock (x.addVar { name := v, loc := vl, ref := .none }) b) s l
+    St.close (cgBlock (x.addVar { name := v, loc := vl, ref := .none, region := some (forRegion vl [i, lim, st]) }) b) s l
   | .forin ns es b l =>
     let x := cgExps (s.open []) es
-    let x := ns.foldl (fun x (n, nl) => x.addVar { name := n, loc := nl, ref := .none }) x
+    let x := ns.foldl (fun x (n, nl) => x.addVar { name := n, loc := nl, ref := .none, region := some (forRegion nl es) }) x
     St.close (cgBlock x b) s l
   | .assign vars exps _ => cgAssign s vars exps
-  | .local_ names exps _ =>
+  | .local_ names exps sl =>
     let nE := exps.length
     let lastCall : Option Loc :=
       match exps.getLast? with
       | some (.call _ _ _ l) => if nE ≤ names.length then some l else none
       | _ => none
     -- every initialiser first (also surplus ones), then the names
-    declLocals (cgExps s exps) lastCall names exps
+    declLocals (cgExps s exps) lastCall sl names exps
   | .localfn n nl f _ =>
     let fl := match f with | .mk _ _ _ _ _ _ l => l
     cgFunc (s.addVar { name := n, loc := nl, ref := .func fl }) f
@@ -306,11 +322,11 @@ def defineAt (root : Tree) (name : Bytes) (line col : Int) : Option Var :=
   findLocVar chain name ⟨line, col, line, col⟩
 
 /-- `GetCompleteVar`: locals offered at the cursor: per scope of the chain and per name, the last
-    declaration that starts at or before the cursor -/
+    declaration that passes the position test of the resolver (`IsCorrectPosition`) -/
 def completeAt (root : Tree) (line col : Int) : List Bytes :=
   let chain := (findMinChain root line col).getD [root]
   let names := chain.flatMap fun t =>
-    (t.vars.filter fun v => v.loc.sl < line || (v.loc.sl == line && v.loc.sc ≤ col)).map (·.name)
+    (t.vars.filter fun v => isCorrectPosition v ⟨line, col, line, col⟩).map (·.name)
   names.eraseDups
 
 end LuaHelper.Scope
